@@ -118,15 +118,18 @@ CHECKS["C12"] = ("Proof: C12.disk_list_report / disk_extract_report — for ever
                  "number of files the written image gained on that side (the events of a batch are proved well-bracketed: Disk.Trace); "
                  "tape create/list lines carry the true size, data-block count and leader ordinal; plural rule, counter steps. Tie/oracle: reports of "
                  "create/add/list/extract x quiet/verbose parsed into facts and compared with the independent decoding of the archive.", D, "7 C12")
-CHECKS["C13"] = ("Proof: tool's token table = pinned MO5 table, codes >= 0x80 / FFxx, injective, keywords distinct; every keyword typed alone "
-                 "(upper or lower case) yields its token, ELSE with colon (finite, whole table, kernel evaluation of the model); file = FF, "
-                 "length, records, zero link; one record per line iff every line is numbered; C13.pieces_encode_independently — a line cut into pieces "
-                 "that each end, outside a string literal, with a special character (the statements of a line in particular) is encoded piece by "
-                 "piece, no token straddles a special character; keyword_then_separator (whole table x six characters); delimited_keywords — any "
-                 "sequence of keywords each followed by a special character is stored as the sequence of their tokens; C13.simple_line — every line "
-                 "made of keywords, words of characters that occur in no keyword (numbers, J, Z, #, %, ...) and string literals, each followed by a "
-                 "special character, is stored as tokens / upper-cased words / verbatim literals. Words of letters that may contain keywords "
-                 "(identifiers) are checked against the reference encoder, not proved. Tie/oracle: vocabulary listings through real moto_lst2bas vs model, Lean structure decoder, Lean reference encoder.", D, "7 C13")
+CHECKS["C13"] = ("Proof: C13.delimited_line — for EVERY line text of the property's domain (every word outside string literals, i.e. every maximal "
+                 "run of characters other than . , ( ) : blank, the one-character operator tokens and the double quote, is exactly a keyword or "
+                 "contains no keyword) the tokenizer stores exactly what the reference encoder Spec.BasicRef.encodeRef stores: tokens for "
+                 "keywords (ELSE after a colon), other words upper-cased, operators as tokens, literals verbatim; no bound on length, number of "
+                 "words or kind of separator (states of the tokenizer at the start/end of a word, each separator from there; the five keywords "
+                 "that begin with a shorter keyword evaluated in the kernel); delimited_record; tool's token table = pinned MO5 table, codes >= "
+                 "0x80 / FFxx, injective, keywords distinct; every keyword typed alone (upper or lower case) yields its token; file = FF, "
+                 "length, records, zero link; one record per line iff every line is numbered; pieces_encode_independently, "
+                 "keyword_then_separator, delimited_keywords, simple_line (earlier, weaker forms kept). The attempt to prove delimited_line "
+                 "exposed defect F17 (keyword behind a pending operator before a literal / end of line), repaired. Tie/oracle: vocabulary "
+                 "listings (every keyword x 12 contexts incl. a pending operator) and random lines through real moto_lst2bas vs model, Lean "
+                 "structure decoder, Lean reference encoder.", D, "7 C13")
 CHECKS["C14"] = ("Proof: C14.lossless — for every ASCII line body, detokenizing (Spec.BasicRef.decode) the bytes the tokenizer model emits gives "
                  "the text upper-cased outside string literals (C17's automaton): invariant over the four branches of appendAsToken incl. the "
                  "repaired early-match branch, closure of decode over segments, whole-table shape lemma by kernel evaluation. Tie/oracle: "
